@@ -676,10 +676,30 @@ impl<'m> Exec<'m> {
             },
             ir::TypeLayer::Struct(id) => match v {
                 Value::Struct(sid, f) if sid == id.0 => Ok(Value::Struct(sid, f)),
+                // a scalar cast to a struct gives every (nested) member the value, converted to the member's type;
+                // the operand has been evaluated once
+                Value::S(_) => {
+                    let def = &self.m.struct_registry[id.0 as usize];
+                    let mut fields = Vec::new();
+                    for mem in &def.members {
+                        let mty = self.m.type_registry.remove_modifier(mem.type_id);
+                        fields.push(self.cast(v.clone(), mty)?);
+                    }
+                    Ok(Value::Struct(id.0, fields))
+                }
                 _ => unsup("cast to struct"),
             },
-            ir::TypeLayer::Array(..) => match v {
+            ir::TypeLayer::Array(inner, len) => match v {
                 Value::Array(a) => Ok(Value::Array(a)),
+                Value::S(_) => {
+                    let Some(n) = len else { return unsup("cast to unsized array") };
+                    let ety = self.m.type_registry.remove_modifier(inner);
+                    let mut out = Vec::new();
+                    for _ in 0..n {
+                        out.push(self.cast(v.clone(), ety)?);
+                    }
+                    Ok(Value::Array(out))
+                }
                 _ => unsup("cast to array"),
             },
             ir::TypeLayer::Void => Ok(Value::Void),
